@@ -89,6 +89,33 @@ CLAIMS = {
         "note": TB + "Template concatenation/hole isolation are validated on the implementation, not yet proved on a VM model.",
         "technique": "Lean 4 induction over texts (escape/scan round trip) + differential stream + template oracle",
     },
+    "C09": {
+        "text": "Theorem roundtrip (mutual structural induction over values): every encodable tree value — int64 integers, "
+                "finite floats, strings, null, arrays, dicts, functions, computed values with attributes, known native functions, "
+                "at every nesting depth — encodes, and decoding the result returns exactly that value; non-finite floats are "
+                "rejected. The implementation's own JSON output is decoded by the Lean model and compared with the "
+                "implementation's value (ties encoder and model), and the decoder is tied by C10's stream. Oracles on the "
+                "implementation: decode(encode(v)) = v for program-built values; cyclic structures must give an error and "
+                "acyclic sharing must encode (both were defects, fixed); snapshot after EVERY statement prefix, restore into a "
+                "fresh VM with the captured generator state, and continue with suffix programs that call every function, read "
+                "every computed value twice (in one program and in separate tiny programs) — outcomes must be identical.",
+        "note": TB + "Values are trees in the theorem; aliasing (known finding), cycles, and VM behaviour after restore are "
+                     "validated on the implementation. Byte-level JSON (encoding/json, strconv) is trusted.",
+        "technique": "Lean 4 round-trip theorem (mutual structural induction) + encoder/decoder cross stream + snapshot oracle",
+    },
+    "C10": {
+        "text": "Theorem decode_welltyped: for EVERY JSON tree and every nesting depth the model of UnmarshalJSON either fails or "
+                "returns a value whose integers fit int64 and whose native functions are bound to an existing implementation, "
+                "recursively through arrays, dicts and computed attributes; the value type of the model has no inhabitant for "
+                "'nil element' or 'tag/payload mismatch', and the json stream ties that to the real decoder (whose canonical "
+                "rendering prints NIL / N? / i? for such values) on well-typed, ill-typed, unknown-tag, null, wrong-case, "
+                "missing-field documents and variable maps. Oracle on the implementation: ToString/ToRepr/AsBool/ValueEqual/"
+                "ToJSON plus 45 scripts with the decoded value bound to a variable must all be crash-free.",
+        "note": TB + "Objects with duplicate (case-insensitively equal) keys are outside the modelled domain (encoding/json merges "
+                     "struct occurrences; the model takes the last) — those documents get the battery only. Crash-freedom of "
+                     "operations on well-typed values is validated by the battery here and is C01's subject.",
+        "technique": "Lean 4 theorem over all JSON trees (induction on depth) + differential decode stream + operation battery",
+    },
 }
 
 NOT_YET = {}
